@@ -334,7 +334,7 @@ def r7(run, db):
             links = [x for x in sb.calls() if x.is_("ActorCell::try_link")]
             te = true_edge(sb, links[0]) if links else None
             # the link is optional (supervisor: Option); require: no path from the refused edge reaches mark_running
-            fe = false_edge(sb, links[0]) if links else None
+            fe = implied_edges(sb, links[0])[1] if links else None
             run.check(fe is not None and csite_sb not in edge_path_sites(sb, [fe]) and links and not sb.reaches_after(csite_sb, links[0].site) and sb.reaches_after(links[0].site, csite_sb), "S|mark_running-after-link",
                       "mark_running comes after the (optional) link and is unreachable from a refused link", "the guard is armed for notification before the supervisor link is attempted: a refused link (supervisor shutting down) makes the failed spawn emit a terminal event", c.where())
         # ActorStarted
